@@ -257,7 +257,7 @@ package flamego
 //@ define shortcutOK(l route.Leaf) bool = l != nil && leafStyle(l) == 1 && leafBase(l).headerMatcher == nil && !leafBase(l).segment.Optional
 
 //@ define routerWF(r *router) bool = r.notFound != nil && r.routeTrees != nil && r.staticRoutes != nil && r.namedRoutes != nil &&
-//@     r.parser != nil && r.contextCreator != nil &&
+//@     r.parser != nil && r.contextCreator != nil && r.regCount >= 0 &&
 //@     (forall m string :: has(r.routeTrees, m) ==> isTree(r.routeTrees[m])) &&
 //@     (forall k int :: 0 <= k && k < len(httpMethods) ==> has(r.routeTrees, httpMethods[k]) && has(r.staticRoutes, httpMethods[k]) && r.staticRoutes[httpMethods[k]] != nil) &&
 //@     (forall m string, p string :: has(r.staticRoutes, m) && has(r.staticRoutes[m], p) ==> shortcutOK(r.staticRoutes[m][p])) &&
@@ -621,6 +621,7 @@ package flamego
 
 //@ func validateAndWrapHandler
 //@   props C11
+//@   pure
 //@   modifies nothing
 //@   panics true
 //@   ensures result != nil
@@ -631,7 +632,9 @@ package flamego
 //@   modifies handlers[*]
 //@   panics true
 //@   ensures handlersNonNil(handlers)
-//@   loop 0 invariant forall k int :: 0 <= k && k <= rangeindex ==> handlers[k] != nil
+//@   ensures forall k int :: 0 <= k && k < len(handlers) ==> handlers[k] == flamego.validateAndWrapHandler(old(handlers[k]), wrapper)
+//@   loop 0 invariant forall k int :: 0 <= k && k <= rangeindex ==> handlers[k] != nil && handlers[k] == flamego.validateAndWrapHandler(old(handlers[k]), wrapper)
+//@   loop 0 invariant forall k int :: rangeindex < k && k < len(handlers) ==> handlers[k] == old(handlers[k])
 
 //@ func (*router).Route
 //@   props C11 C03
@@ -644,8 +647,93 @@ package flamego
 //@   ghost before addRoute#0: r.regCount = r.regCount + 1
 //@   ensures routerWF(r) && treeWF() && routeObjWF(result)
 //@   ensures r.regCount == old(r.regCount) + 1 && r.regMethod[old(r.regCount)] == method
-//@   ensures r.regPath[old(r.regCount)] == gpUpTo(r, len(r.groups)) + routePath
+//@   ensures r.regPath[old(r.regCount)] == old(gpUpTo(r, len(r.groups))) + routePath
 //@   ensures len(r.regHandlers[old(r.regCount)]) == ghLen(r, len(r.groups)) + len(handlers)
-//@   ensures forall i int :: 0 <= i && i < len(handlers) ==> r.regHandlers[old(r.regCount)][ghLen(r, len(r.groups)) + i] == old(handlers[i]) || true
+//@   ensures forall i int :: 0 <= i && i < len(handlers) ==>
+//@       r.regHandlers[old(r.regCount)][ghLen(r, len(r.groups)) + i] == flamego.validateAndWrapHandler(old(handlers[i]), r.handlerWrapper)
 //@   ensures r.groups == old(r.groups) && r.autoHead == old(r.autoHead)
+//@   ensures forall k int {r.regMethod[k]} :: 0 <= k && k < old(r.regCount) ==> r.regMethod[k] == old(r.regMethod[k])
+//@   ensures forall k int {r.regPath[k]} :: 0 <= k && k < old(r.regCount) ==> r.regPath[k] == old(r.regPath[k])
+//@   ensures forall k int {r.regHandlers[k]} :: 0 <= k && k < old(r.regCount) ==> r.regHandlers[k] == old(r.regHandlers[k])
 //@   loop 0 invariant routerWF(r) && treeWF() && groupPath == gpUpTo(r, rangeindex + 1) && len(hs) == ghLen(r, rangeindex + 1) && fresh(hs)
+//@   loop 0 invariant handlers == old(handlers) && (forall i int :: 0 <= i && i < len(handlers) ==> handlers[i] == old(handlers[i]))
+
+// method shortcuts: exactly one flat entry with that method (plus HEAD for GET while AutoHead is on)
+//@ func (*router).Get
+//@   props C11
+//@   requires routerWF(r) && treeWF()
+//@   modifies *
+//@   panics true
+//@   ensures routerWF(r) && treeWF() && r.groups == old(r.groups) && r.autoHead == old(r.autoHead)
+//@   ensures r.regCount == old(r.regCount) + ite(old(r.autoHead), 2, 1)
+//@   ensures r.regMethod[old(r.regCount)] == "GET" && r.regPath[old(r.regCount)] == old(gpUpTo(r, len(r.groups))) + routePath
+//@   ensures old(r.autoHead) ==> r.regMethod[old(r.regCount) + 1] == "HEAD"
+//@ func (*router).Post
+//@   props C11
+//@   requires routerWF(r) && treeWF()
+//@   modifies *
+//@   panics true
+//@   ensures forall k int {r.regMethod[k]} :: 0 <= k && k < old(r.regCount) ==> r.regMethod[k] == old(r.regMethod[k])
+//@   ensures forall k int {r.regPath[k]} :: 0 <= k && k < old(r.regCount) ==> r.regPath[k] == old(r.regPath[k])
+//@   ensures forall k int {r.regHandlers[k]} :: 0 <= k && k < old(r.regCount) ==> r.regHandlers[k] == old(r.regHandlers[k])
+//@   ensures routerWF(r) && treeWF() && routeObjWF(result) && r.groups == old(r.groups) && r.autoHead == old(r.autoHead)
+//@   ensures r.regCount == old(r.regCount) + 1 && r.regMethod[old(r.regCount)] == "POST" && r.regPath[old(r.regCount)] == old(gpUpTo(r, len(r.groups))) + routePath
+//@ func (*router).Head
+//@   props C11
+//@   requires routerWF(r) && treeWF()
+//@   modifies *
+//@   panics true
+//@   ensures forall k int {r.regMethod[k]} :: 0 <= k && k < old(r.regCount) ==> r.regMethod[k] == old(r.regMethod[k])
+//@   ensures forall k int {r.regPath[k]} :: 0 <= k && k < old(r.regCount) ==> r.regPath[k] == old(r.regPath[k])
+//@   ensures forall k int {r.regHandlers[k]} :: 0 <= k && k < old(r.regCount) ==> r.regHandlers[k] == old(r.regHandlers[k])
+//@   ensures routerWF(r) && treeWF() && routeObjWF(result) && r.groups == old(r.groups) && r.autoHead == old(r.autoHead)
+//@   ensures r.regCount == old(r.regCount) + 1 && r.regMethod[old(r.regCount)] == "HEAD" && r.regPath[old(r.regCount)] == old(gpUpTo(r, len(r.groups))) + routePath
+//@ func (*router).Any
+//@   props C11
+//@   requires routerWF(r) && treeWF()
+//@   modifies *
+//@   panics true
+//@   ensures forall k int {r.regMethod[k]} :: 0 <= k && k < old(r.regCount) ==> r.regMethod[k] == old(r.regMethod[k])
+//@   ensures forall k int {r.regPath[k]} :: 0 <= k && k < old(r.regCount) ==> r.regPath[k] == old(r.regPath[k])
+//@   ensures forall k int {r.regHandlers[k]} :: 0 <= k && k < old(r.regCount) ==> r.regHandlers[k] == old(r.regHandlers[k])
+//@   ensures routerWF(r) && treeWF() && routeObjWF(result) && r.groups == old(r.groups) && r.autoHead == old(r.autoHead)
+//@   ensures r.regCount == old(r.regCount) + 1 && r.regMethod[old(r.regCount)] == "*" && r.regPath[old(r.regCount)] == old(gpUpTo(r, len(r.groups))) + routePath
+//@ func (*router).AutoHead
+//@   props C11
+//@   modifies r.autoHead
+//@   ensures r.autoHead == v
+
+// Group: the callback registers through the API; every registration call leaves the group stack as it found it.
+//@ model registerCallback(r *router) ()
+//@   requires routerWF(r) && treeWF()
+//@   modifies *
+//@   panics true
+//@   ensures routerWF(r) && treeWF() && r.groups == old(r.groups) && r.regCount >= old(r.regCount) && r.autoHead == r.autoHead
+//@   ensures len(r.groups) > 0 ==> r.groups[len(r.groups) - 1].path == old(r.groups[len(r.groups) - 1].path)
+//@   ensures forall k int :: 0 <= k && k < len(r.groups) ==> r.groups[k].path == old(r.groups[k].path) && r.groups[k].handlers == old(r.groups[k].handlers)
+
+//@ func (*router).Group
+//@   props C11
+//@   requires routerWF(r) && treeWF() && fn != nil
+//@   call fn#0 as registerCallback(r)
+//@   modifies *
+//@   panics true
+//@   assert after append#0: len(r.groups) >= 0
+//@   ensures routerWF(r) && treeWF()
+//@   ensures len(r.groups) == len(old(r.groups))
+//@   ensures forall k int :: 0 <= k && k < len(r.groups) ==> r.groups[k].path == old(r.groups[k].path) && r.groups[k].handlers == old(r.groups[k].handlers)
+
+// Combo: refuses the same method twice; every method gets a fresh handler list (common ++ own)
+//@ functype "func(string, ...flamego.Handler) *flamego.Route" (routePath, handlers) res
+//@   modifies *
+//@   panics true
+//@ func (*ComboRoute).route
+//@   props C11
+//@   requires r.added != nil && fn != nil
+//@   modifies *
+//@   panics true
+//@   ensures !old(has(r.added, method))
+//@   assert before fn#0: fresh(hs) && len(hs) == len(r.handlers) + len(handlers)
+//@   assert before fn#0: (forall k int :: 0 <= k && k < len(r.handlers) ==> hs[k] == old(r.handlers[k])) && (forall k int :: 0 <= k && k < len(handlers) ==> hs[len(r.handlers) + k] == old(handlers[k]))
+//@   assert before fn#0: forall k int :: 0 <= k && k < len(r.handlers) ==> r.handlers[k] == old(r.handlers[k])
+//@   ensures result == r
